@@ -107,6 +107,10 @@ impl Snapshots {
         self.global_here.pop();
         Some(ev)
     }
+    /// bookkeeping only: some open group would hold a save-stack entry for target t
+    pub fn some_group_holds_save(&self, t: usize) -> bool {
+        (1..self.saved.len()).any(|k| self.saved[k][t])
+    }
     pub fn assign(&mut self, t: usize, value: String, scope: Scope) -> Events {
         let mut ev = Events::default();
         let d = self.levels.len() - 1;
